@@ -192,7 +192,7 @@ pub fn handle_setrange(storage: &Arc<StorageEngine>, db: usize, parts: &[RespFra
     
     let offset = match &parts[2] {
         RespFrame::BulkString(Some(bytes)) => {
-            match String::from_utf8_lossy(bytes).parse::<usize>() {
+            match String::from_utf8_lossy(bytes).parse::<i64>().map_err(|_| ()).and_then(|n| usize::try_from(n).map_err(|_| ())) {
                 Ok(n) => n,
                 Err(_) => return Ok(RespFrame::error("ERR value is not an integer or out of range")),
             }
